@@ -168,6 +168,33 @@ def monitor(lines, out):
     return None
 
 
+def live_cases(rnd, n):
+    """connected destinations: hosts that resolve to this machine, port 0 (= a local sink), instances; the ring is rebuilt by
+    add/del *after* every destination has connected"""
+    out = []
+    for i in range(n):
+        used = set()
+        addrs = []
+        for _ in range(rnd.randint(2, 5)):
+            a = "%s:0:%s" % (rnd.choice(["127.0.0.1", "localhost"]), rnd.choice(["a", "b", "c", "d", "1", "2", "inst"]))
+            if node_of(a) not in used:
+                used.add(node_of(a))
+                addrs.append(a)
+        ks = names(rnd, 40)
+        ops = ["new " + ",".join(addrs)] + ["k " + tg.hx(x) for x in ks[:25]]
+        for _ in range(rnd.randint(1, 3)):
+            if rnd.random() < 0.6:
+                a = "%s:0:%s" % (rnd.choice(["127.0.0.1", "localhost"]), rnd.choice(["e", "f", "g", "3", "x"]))
+                if node_of(a) not in used:
+                    used.add(node_of(a))
+                    ops.append("add " + a)
+            else:
+                ops.append("del %d" % rnd.randint(0, 4))
+            ops += ["k " + tg.hx(x) for x in ks]
+        out.append(("l%d" % i, ops))
+    return out
+
+
 def run(ctx):
     ctx.assumptions += ["Carbon 0.9.x ring (no position bumping on collisions, which carbon >= 1.1 added)", "sort.Sort returns some Less-sorted permutation (ties are identical keys)"]
     ctx.prepare()
@@ -186,3 +213,6 @@ def run(ctx):
     # many nodes: different nodes share ring positions (ties are decided by host, instance)
     ctx.stream("hash-route-collisions", "chash", cases(ctx.rng("c15b"), ctx.scale(6, 80), 400, big=True), monitor=monitor, spec_exact=True,
                removable=lambda l: l.startswith("k "), timeout=ctx.scale(900, 6000))
+    # connected destinations: what connecting does to a destination must not change the ring that add/del rebuild
+    ctx.stream("hash-route-live", "chashlive", live_cases(ctx.rng("c15l"), ctx.scale(6, 60)), driver_sub="chash", monitor=monitor, spec_exact=True,
+               removable=lambda l: l.startswith("k "), timeout=ctx.scale(600, 3000))
